@@ -62,6 +62,7 @@ type Job struct {
 	StepCap  int64   `json:"step_cap"`
 	FirstIdx int     `json:"first_index"`
 	OnlyCell int     `json:"only_cell"`
+	MaxProcs int     `json:"-"` // GOMAXPROCS of the worker process (0 = 2)
 }
 
 type Failure struct {
@@ -236,7 +237,11 @@ func runWorkers(bin string, jobs []Job, dir string, env []string, timeout time.D
 			data, _ := json.Marshal(j)
 			os.WriteFile(jp, data, 0644)
 			cmd := exec.Command(bin, "-test.run", "^$")
-			cmd.Env = append(append([]string{}, env...), "VSIM_WORKER=1", "VSIM_JOB="+jp, "GOMAXPROCS=2", "GOTRACEBACK=single")
+			mp := j.MaxProcs
+			if mp == 0 {
+				mp = 2
+			}
+			cmd.Env = append(append([]string{}, env...), "VSIM_WORKER=1", "VSIM_JOB="+jp, fmt.Sprintf("GOMAXPROCS=%d", mp), "GOTRACEBACK=single")
 			logf := filepath.Join(dir, fmt.Sprintf("log-%s-%d.txt", j.Kind, j.Worker))
 			lf, _ := os.Create(logf)
 			cmd.Stdout = lf
@@ -816,4 +821,85 @@ func writeEvidence(spec Spec, tier string, seed uint64, a *agg, b *Build, wall f
 	return os.Rename(tmp, filepath.Join(verifDir, "evidence", spec.Prop+".json"))
 }
 
-func runSelftest() int { return 2 }
+// runSelftest is the determinism self-test: for every claimed property a
+// sample of seeds is executed in several separate worker processes under
+// GOMAXPROCS 1, 4 and 16; every process also repeats each seed in-process and
+// replays the recorded choice list. All hashes (events, outcomes, oracle
+// verdicts) must agree.
+func runSelftest() int {
+	seed := verifSeed()
+	n := 48
+	if s := os.Getenv("VSIM_SELFTEST_SEEDS"); s != "" {
+		if v, err := strconv.Atoi(s); err == nil {
+			n = v
+		}
+	}
+	props := specNames()
+	if p := os.Getenv("VSIM_SELFTEST_PROPS"); p != "" {
+		props = strings.Split(p, ",")
+	}
+	builds := map[string]*Build{}
+	defer func() {
+		for _, b := range builds {
+			b.Cleanup()
+		}
+	}()
+	bad := 0
+	for _, prop := range props {
+		spec := specs[prop]
+		key := spec.Binary + fmt.Sprint(spec.Corpus)
+		b := builds[key]
+		if b == nil {
+			var err error
+			b, err = PrepareBuild(buildOpts{Tag: "selftest-" + key, NeedRoot: spec.Binary == "root", NeedTB: spec.Binary == "tb", Corpus: spec.Corpus})
+			builds[key] = b
+			if err != nil {
+				fmt.Fprintln(os.Stderr, "BUILD FAILED:", err)
+				return 2
+			}
+		}
+		bin := b.SimTest
+		if spec.Binary == "tb" {
+			bin = b.TBTest
+		}
+		tmp := tmpBase(b)
+		var jobs []Job
+		for i, mp := range []int{1, 4, 16, 2, 1, 16} {
+			jobs = append(jobs, Job{Prop: prop, Tier: "quick", Mode: "hash", Seed: seed, Worker: 0, Stride: 1, Count: n, TmpDir: tmp, Repeat: 2, MaxProcs: mp, Kind: fmt.Sprintf("p%d", i)})
+		}
+		// distinct worker ids so that sandboxes do not collide
+		for i := range jobs {
+			jobs[i].TmpDir = filepath.Join(tmp, fmt.Sprintf("st%d", i))
+			os.MkdirAll(jobs[i].TmpDir, 0755)
+		}
+		outs, crashed, err := runWorkers(bin, jobs, filepath.Join(b.Dir, "selftest-"+prop), goEnv(), 20*time.Minute)
+		os.RemoveAll(tmp)
+		if err != nil || len(crashed) > 0 {
+			fmt.Fprintln(os.Stderr, "selftest: worker trouble for", prop, err, crashed)
+			return 2
+		}
+		div := 0
+		for _, o := range outs {
+			for _, d := range o.Diverged {
+				fmt.Printf("DIVERGED %s: %s\n", prop, d)
+				div++
+			}
+		}
+		for idx, h0 := range outs[0].Hashes {
+			for pi, o := range outs[1:] {
+				if o.Hashes[idx] != h0 {
+					fmt.Printf("DIVERGED %s: seed index %s: process 0 (GOMAXPROCS 1) hash %x, process %d hash %x\n", prop, idx, h0, pi+1, o.Hashes[idx])
+					div++
+				}
+			}
+		}
+		fmt.Printf("selftest %s: %d seeds x %d processes (GOMAXPROCS 1,4,16,2,1,16) x 2 in-process repeats + replay: %d divergences\n", prop, n, len(jobs), div)
+		bad += div
+	}
+	if bad > 0 {
+		fmt.Println("DETERMINISM SELF-TEST FAILED")
+		return 2
+	}
+	fmt.Println("determinism self-test passed")
+	return 0
+}
